@@ -1,5 +1,5 @@
-import HqModel.Lemmas.JournalInv
-/-! Preservation of `Inv` by every record of a producible journal (`recordOk`, and `failOk` to exclude defect F9). -/
+import HqModel.Lemmas.JournalCrash
+/-! Preservation of `Inv` by every record of a producible journal (`recordOk`). -/
 namespace HqModel.Journal
 open HqModel.Job
 
@@ -27,64 +27,120 @@ variable {R : Restorer} {A : AState}
 theorem step_taskStarted (h : Inv R A) {j t i : Nat} {ws : List Nat}
     (hok : recordOk A (.taskStarted j t i ws) = true) :
     ∃ R', restorerStep R (.taskStarted j t i ws) = .ok R' ∧ Inv R' (meaningStep A (.taskStarted j t i ws)) := by
-  obtain ⟨aj, a, haj, hamem, haid, hp⟩ := taskIs_elim hok
-  obtain ⟨rj, hrj, hrel⟩ := h.getJob haj
+  simp only [recordOk, Bool.and_eq_true, List.all_eq_true, decide_eq_true_eq] at hok
+  obtain ⟨aj, a, haj, hamem, haid, hp⟩ := taskIs_elim hok.1
+  obtain ⟨rj, hrj, hrel, hcr⟩ := h.getJob haj
   simp only [Bool.and_eq_true, beq_iff_eq] at hp
   refine ⟨_, by simp only [restorerStep, hrj]; rfl, ?_⟩
   simp only [meaningStep, updTask, haj]
-  refine h.setJob j (hrel.updTask t _ ⟨.running ⟨i, ws⟩, some i, 0⟩ (mem_ids hamem haid) (fun _ => rfl) ?_
-    (Or.inl ⟨_, rfl, rfl⟩))
+  have e1 : ∀ a0 ∈ aj.tasks, a0.id = t → a0.st = a.st := fun a0 ha0 hid0 => by
+    rw [hrel.outcome a0 ha0, hrel.outcome a hamem, hid0, haid]
+  have e2 : ∀ a0 ∈ aj.tasks, a0.id = t → a0.inst = a.inst := fun a0 ha0 hid0 => by
+    rw [hrel.inst a0 ha0, hrel.inst a hamem, hid0, haid]
+  refine h.setJob j (hrel.updTask t (fun a => { a with inst := some (max i (a.inst.getD 0)), run := some ws })
+    ⟨.running ⟨i, ws⟩, some i, ((alGet rj.tasks t).map (·.crash)).getD 0⟩
+    (mem_ids hamem haid) (fun _ => rfl) ?_ (Or.inl ⟨_, rfl, rfl⟩))
+    (hcr.updTask t (fun a => { a with inst := some (max i (a.inst.getD 0)), run := some ws })
+      ⟨.running ⟨i, ws⟩, some i, ((alGet rj.tasks t).map (·.crash)).getD 0⟩ (fun _ => rfl) ?_ ?_)
+  · intro a0 ha0 hid0
+    refine ⟨by simp [e1 a0 ha0 hid0, hp.1, TState.outcome], ?_⟩
+    simp only [e2 a0 ha0 hid0]
+    cases hai : a.inst with
+    | none => simp
+    | some i0 =>
+      have : i0 < i := by simpa [hai] using hp.2
+      simp; omega
+  · intro a0 ha0 hid0
+    refine ⟨by simp only; rw [hcr.crash a0 ha0, hid0], ?_, ?_⟩
+    · intro ws' hws'
+      simp only [Option.some.injEq] at hws'
+      exact ⟨i, by rw [hws']⟩
+    · intro hn; simp at hn
+  · intro sd root hsd hh
+    simp only [TState.running.injEq] at hsd
+    subst hsd
+    cases ws with
+    | nil => simp at hh
+    | cons r rest =>
+      simp only [List.head?_cons, Option.some.injEq] at hh
+      subst hh
+      exact hok.2 r (List.mem_cons_self)
+
+/-- the crash side of "an existing entry `ti` gets a terminal state" -/
+theorem crash_terminal {conn : List Nat} {mw : Nat} {rj : RJob} {aj : AJob} (hcr : CrashRel conn mw rj aj) (t : Nat)
+    (o : Outcome) (ti : RTask) (hti : alGet rj.tasks t = some ti) (st : TState) (hst : ∀ sd, st ≠ .running sd) :
+    CrashRel conn mw { rj with tasks := alSet rj.tasks t { ti with state := st } }
+      { aj with tasks := aj.tasks.map fun a => if a.id = t then { a with st := o, run := none } else a } := by
+  refine hcr.updTask t _ _ (fun _ => rfl) ?_ (fun sd root hsd => absurd hsd (hst sd))
   intro a0 ha0 hid0
-  have e1 : a0.st = a.st := by rw [hrel.outcome a0 ha0, hrel.outcome a hamem, hid0, haid]
-  have e2 : a0.inst = a.inst := by rw [hrel.inst a0 ha0, hrel.inst a hamem, hid0, haid]
-  refine ⟨by simp [e1, hp.1, TState.outcome], ?_⟩
-  simp only [e2]
-  cases hai : a.inst with
-  | none => simp
-  | some i0 =>
-    have : i0 < i := by simpa [hai] using hp.2
-    simp; omega
+  refine ⟨?_, ?_, ?_⟩
+  · have := hcr.crash a0 ha0
+    rw [hid0, hti] at this
+    simpa using this
+  · intro ws hws; simp at hws
+  · intro _ sd root hsd; exact absurd hsd (hst sd)
+
+/-- the crash side of "a task without entry gets a terminal entry" -/
+theorem crash_terminal_new {conn : List Nat} {mw : Nat} {rj : RJob} {aj : AJob} (hcr : CrashRel conn mw rj aj) (t : Nat)
+    (o : Outcome) (hti : alGet rj.tasks t = none) (st : TState) (hst : ∀ sd, st ≠ .running sd) :
+    CrashRel conn mw { rj with tasks := alSet rj.tasks t ⟨st, none, 0⟩ }
+      { aj with tasks := aj.tasks.map fun a => if a.id = t then { a with st := o, run := none } else a } := by
+  refine hcr.updTask t _ _ (fun _ => rfl) ?_ (fun sd root hsd => absurd hsd (hst sd))
+  intro a0 ha0 hid0
+  refine ⟨?_, ?_, ?_⟩
+  · have := hcr.crash a0 ha0
+    rw [hid0, hti] at this
+    simpa using this
+  · intro ws hws; simp at hws
+  · intro _ sd root hsd; exact absurd hsd (hst sd)
 
 theorem step_taskFinished (h : Inv R A) {j t : Nat} (hok : recordOk A (.taskFinished j t) = true) :
     ∃ R', restorerStep R (.taskFinished j t) = .ok R' ∧ Inv R' (meaningStep A (.taskFinished j t)) := by
   obtain ⟨aj, a, haj, hamem, haid, hp⟩ := taskIs_elim hok
-  obtain ⟨rj, hrj, hrel⟩ := h.getJob haj
+  obtain ⟨rj, hrj, hrel, hcr⟩ := h.getJob haj
   simp only [Bool.and_eq_true, beq_iff_eq] at hp
   obtain ⟨ti, sd, hti, hsd⟩ := hrel.running_entry hamem hp.1 hp.2
   rw [haid] at hti
   refine ⟨_, by simp only [restorerStep, hrj, hti, hsd]; rfl, ?_⟩
   simp only [meaningStep, setOutcome, updTask, haj]
   refine h.setJob j (hrel.updTask t _ { ti with state := .finished sd } (mem_ids hamem haid) (fun _ => rfl) ?_
-    (Or.inr rfl))
+    (Or.inr rfl)) (crash_terminal hcr t .finished ti hti _ (fun _ => by simp))
   intro a0 ha0 hid0
   refine ⟨rfl, ?_⟩
   have := hrel.inst a0 ha0
   rw [hid0, hti] at this
   simpa using this
 
-theorem step_taskFailed (h : Inv R A) {j t : Nat} (hok : recordOk A (.taskFailed j t) = true)
-    (hf : failOk A (.taskFailed j t) = true) :
+theorem step_taskFailed (h : Inv R A) {j t : Nat} (hok : recordOk A (.taskFailed j t) = true) :
     ∃ R', restorerStep R (.taskFailed j t) = .ok R' ∧ Inv R' (meaningStep A (.taskFailed j t)) := by
   obtain ⟨aj, a, haj, hamem, haid, hp⟩ := taskIs_elim hok
-  obtain ⟨aj', a', haj', hamem', haid', hp'⟩ := taskIs_elim hf
-  rw [haj] at haj'; cases haj'
-  obtain ⟨rj, hrj, hrel⟩ := h.getJob haj
+  obtain ⟨rj, hrj, hrel, hcr⟩ := h.getJob haj
   simp only [beq_iff_eq] at hp
-  have hinst : a.inst.isSome = true := by
-    have e2 : a.inst = a'.inst := by rw [hrel.inst a hamem, hrel.inst a' hamem', haid, haid']
-    rw [e2]; exact hp'
-  obtain ⟨ti, sd, hti, hsd⟩ := hrel.running_entry hamem hp hinst
-  rw [haid] at hti
-  refine ⟨_, by simp only [restorerStep, hrj, hti, hsd]; rfl, ?_⟩
   simp only [meaningStep, setOutcome, updTask, haj]
-  refine h.setJob j (hrel.updTask t _ { ti with state := .failed (some sd) } (mem_ids hamem haid) (fun _ => rfl) ?_
-    (Or.inr rfl))
-  intro a0 ha0 hid0
-  refine ⟨rfl, ?_⟩
-  have := hrel.inst a0 ha0
-  rw [hid0, hti] at this
-  simpa using this
-
+  cases hti : alGet rj.tasks t with
+  | none =>
+    -- the task fails before its first start: `entry(..).or_insert_with(Waiting)` then `Failed { started_data: None }`
+    refine ⟨_, by simp only [restorerStep, hrj, hti]; rfl, ?_⟩
+    refine h.setJob j (hrel.updTask t _ ⟨.failed none, none, 0⟩ (mem_ids hamem haid) (fun _ => rfl) ?_ (Or.inr rfl))
+      (crash_terminal_new hcr t .failed hti _ (fun _ => by simp))
+    intro a0 ha0 hid0
+    refine ⟨rfl, ?_⟩
+    have := hrel.inst a0 ha0
+    rw [hid0, hti] at this
+    simpa using this
+  | some ti =>
+    have hout := hrel.outcome a hamem
+    rw [haid, hti, hp] at hout
+    rcases hrel.shape t ti hti with ⟨sd, hsd, _⟩ | hc
+    · refine ⟨_, by simp only [restorerStep, hrj, hti, hsd]; rfl, ?_⟩
+      refine h.setJob j (hrel.updTask t _ { ti with state := .failed (some sd) } (mem_ids hamem haid) (fun _ => rfl) ?_
+        (Or.inr rfl)) (crash_terminal hcr t .failed ti hti _ (fun _ => by simp))
+      intro a0 ha0 hid0
+      refine ⟨rfl, ?_⟩
+      have := hrel.inst a0 ha0
+      rw [hid0, hti] at this
+      simpa using this
+    · exact absurd hout.symm (completed_outcome_ne hc)
 
 /-! ### batched cancel / abort -/
 
@@ -93,30 +149,30 @@ def TaskExists (A : AState) (id : Nat × Nat) : Prop :=
 
 theorem cancelTask_eq (ts : List (Nat × RTask)) (t : Nat) :
     ∃ ti', cancelTask ts t = alSet ts t ti' ∧ ti'.state.outcome = .canceled ∧ ti'.state.isCompleted = true ∧
-      ti'.inst = (alGet ts t).bind (·.inst) := by
+      ti'.inst = (alGet ts t).bind (·.inst) ∧ ti'.crash = ((alGet ts t).map (·.crash)).getD 0 := by
   unfold cancelTask
   cases h : alGet ts t with
-  | none => exact ⟨_, rfl, rfl, rfl, rfl⟩
+  | none => exact ⟨_, rfl, rfl, rfl, rfl, rfl⟩
   | some ti =>
-    refine ⟨_, rfl, ?_, ?_, rfl⟩
+    refine ⟨_, rfl, ?_, ?_, rfl, rfl⟩
     · cases ti.state <;> rfl
     · cases ti.state <;> rfl
 
 theorem abortTask_eq (ts : List (Nat × RTask)) (t : Nat) :
     ∃ ti', abortTask ts t = alSet ts t ti' ∧ ti'.state.outcome = .aborted ∧ ti'.state.isCompleted = true ∧
-      ti'.inst = (alGet ts t).bind (·.inst) := by
+      ti'.inst = (alGet ts t).bind (·.inst) ∧ ti'.crash = ((alGet ts t).map (·.crash)).getD 0 := by
   unfold abortTask
   cases h : alGet ts t with
-  | none => exact ⟨_, rfl, rfl, rfl, rfl⟩
+  | none => exact ⟨_, rfl, rfl, rfl, rfl, rfl⟩
   | some ti =>
-    refine ⟨_, rfl, ?_, ?_, rfl⟩
+    refine ⟨_, rfl, ?_, ?_, rfl, rfl⟩
     · cases ti.state <;> rfl
     · cases ti.state <;> rfl
 
 theorem setOutcome_fields (o : Outcome) (A : AState) (id : Nat × Nat) :
     (setOutcome o A id).queues = A.queues ∧ (setOutcome o A id).maxJob = A.maxJob ∧
     (setOutcome o A id).maxWorker = A.maxWorker ∧ (setOutcome o A id).maxQueue = A.maxQueue ∧
-    (setOutcome o A id).uid = A.uid := by
+    (setOutcome o A id).uid = A.uid ∧ (setOutcome o A id).workers = A.workers := by
   unfold setOutcome updTask
   split <;> simp
 
@@ -139,45 +195,54 @@ theorem setOutcome_exists (o : Outcome) (A : AState) (id id' : Nat × Nat) (h : 
       simpa [Function.comp_def, hc] using this
     · exact h aj' haj'
 
+theorem completed_not_running {s : TState} (h : s.isCompleted = true) : ∀ sd, s ≠ .running sd := by
+  intro sd e; subst e; simp [TState.isCompleted] at h
+
 /-- one element of a `TasksCanceled` / `TasksAborted` batch -/
-theorem batch_one (o : Outcome) (f : List (Nat × RTask) → Nat → List (Nat × RTask))
+theorem batch_one (conn : List Nat) (mw : Nat) (o : Outcome) (f : List (Nat × RTask) → Nat → List (Nat × RTask))
     (hf : ∀ ts t, ∃ ti', f ts t = alSet ts t ti' ∧ ti'.state.outcome = o ∧ ti'.state.isCompleted = true ∧
-      ti'.inst = (alGet ts t).bind (·.inst))
-    {rjobs : List (Nat × RJob)} {A : AState} (h : AlRel JobRel rjobs A.jobs) (id : Nat × Nat) (he : TaskExists A id) :
-    AlRel JobRel (batchStep f rjobs id) (setOutcome o A id).jobs := by
+      ti'.inst = (alGet ts t).bind (·.inst) ∧ ti'.crash = ((alGet ts t).map (·.crash)).getD 0)
+    {rjobs : List (Nat × RJob)} {A : AState} (h : AlRel (JR conn mw) rjobs A.jobs) (id : Nat × Nat)
+    (he : TaskExists A id) : AlRel (JR conn mw) (batchStep f rjobs id) (setOutcome o A id).jobs := by
   unfold batchStep setOutcome updTask
-  rcases h.get id.1 with ⟨h1, h2⟩ | ⟨rj, aj, h1, h2, hrel⟩
+  rcases h.get id.1 with ⟨h1, h2⟩ | ⟨rj, aj, h1, h2, hrel, hcr⟩
   · simp only [h1, h2]; exact h
   · simp only [h1, h2]
-    obtain ⟨ti', e1, e2, e3, e4⟩ := hf rj.tasks id.2
+    obtain ⟨ti', e1, e2, e3, e4, e5⟩ := hf rj.tasks id.2
     rw [e1]
-    refine h.set id.1 (hrel.updTask id.2 _ ti' (he aj h2) (fun _ => rfl) ?_ (Or.inr e3))
-    intro a0 ha0 hid0
-    refine ⟨e2.symm, ?_⟩
-    rw [e4, ← hid0]
-    exact hrel.inst a0 ha0
+    refine h.set id.1 ⟨hrel.updTask id.2 _ ti' (he aj h2) (fun _ => rfl) ?_ (Or.inr e3),
+      hcr.updTask id.2 _ ti' (fun _ => rfl) ?_ (fun sd root hsd => absurd hsd (completed_not_running e3 sd))⟩
+    · intro a0 ha0 hid0
+      refine ⟨e2.symm, ?_⟩
+      rw [e4, ← hid0]
+      exact hrel.inst a0 ha0
+    · intro a0 ha0 hid0
+      refine ⟨?_, ?_, ?_⟩
+      · rw [e5, ← hid0]; exact hcr.crash a0 ha0
+      · intro ws hws; simp at hws
+      · intro _ sd root hsd; exact absurd hsd (completed_not_running e3 sd)
 
-theorem batch_fold (o : Outcome) (f : List (Nat × RTask) → Nat → List (Nat × RTask))
+theorem batch_fold (conn : List Nat) (mw : Nat) (o : Outcome) (f : List (Nat × RTask) → Nat → List (Nat × RTask))
     (hf : ∀ ts t, ∃ ti', f ts t = alSet ts t ti' ∧ ti'.state.outcome = o ∧ ti'.state.isCompleted = true ∧
-      ti'.inst = (alGet ts t).bind (·.inst)) :
-    ∀ (ids : List (Nat × Nat)) (rjobs : List (Nat × RJob)) (A : AState), AlRel JobRel rjobs A.jobs →
+      ti'.inst = (alGet ts t).bind (·.inst) ∧ ti'.crash = ((alGet ts t).map (·.crash)).getD 0) :
+    ∀ (ids : List (Nat × Nat)) (rjobs : List (Nat × RJob)) (A : AState), AlRel (JR conn mw) rjobs A.jobs →
       (∀ id ∈ ids, TaskExists A id) →
-      AlRel JobRel (ids.foldl (batchStep f) rjobs) (ids.foldl (setOutcome o) A).jobs ∧
+      AlRel (JR conn mw) (ids.foldl (batchStep f) rjobs) (ids.foldl (setOutcome o) A).jobs ∧
       (ids.foldl (setOutcome o) A).queues = A.queues ∧ (ids.foldl (setOutcome o) A).maxJob = A.maxJob ∧
       (ids.foldl (setOutcome o) A).maxWorker = A.maxWorker ∧ (ids.foldl (setOutcome o) A).maxQueue = A.maxQueue ∧
-      (ids.foldl (setOutcome o) A).uid = A.uid := by
+      (ids.foldl (setOutcome o) A).uid = A.uid ∧ (ids.foldl (setOutcome o) A).workers = A.workers := by
   intro ids
   induction ids with
-  | nil => intro rjobs A h _; exact ⟨h, rfl, rfl, rfl, rfl, rfl⟩
+  | nil => intro rjobs A h _; exact ⟨h, rfl, rfl, rfl, rfl, rfl, rfl⟩
   | cons id ids ih =>
     intro rjobs A h he
     simp only [List.foldl_cons]
-    have h1 := batch_one o f hf h id (he id (List.mem_cons_self))
+    have h1 := batch_one conn mw o f hf h id (he id (List.mem_cons_self))
     have he' : ∀ id' ∈ ids, TaskExists (setOutcome o A id) id' :=
       fun id' hid' => setOutcome_exists o A id id' (he id' (List.mem_cons_of_mem _ hid'))
-    obtain ⟨r1, r2, r3, r4, r5, r6⟩ := ih _ _ h1 he'
-    obtain ⟨s2, s3, s4, s5, s6⟩ := setOutcome_fields o A id
-    exact ⟨r1, r2.trans s2, r3.trans s3, r4.trans s4, r5.trans s5, r6.trans s6⟩
+    obtain ⟨r1, r2, r3, r4, r5, r6, r7⟩ := ih _ _ h1 he'
+    obtain ⟨s2, s3, s4, s5, s6, s7⟩ := setOutcome_fields o A id
+    exact ⟨r1, r2.trans s2, r3.trans s3, r4.trans s4, r5.trans s5, r6.trans s6, r7.trans s7⟩
 
 theorem taskIs_exists {A : AState} {id : Nat × Nat} {p : ATask → Bool} (h : taskIs A id p = true) : TaskExists A id := by
   obtain ⟨aj, a, haj, hamem, haid, _⟩ := taskIs_elim (j := id.1) (t := id.2) h
@@ -188,33 +253,36 @@ theorem taskIs_exists {A : AState} {id : Nat × Nat} {p : ATask → Bool} (h : t
 theorem step_tasksCanceled (h : Inv R A) {ids : List (Nat × Nat)} (hok : recordOk A (.tasksCanceled ids) = true) :
     ∃ R', restorerStep R (.tasksCanceled ids) = .ok R' ∧ Inv R' (meaningStep A (.tasksCanceled ids)) := by
   simp only [recordOk, Bool.and_eq_true, List.all_eq_true] at hok
-  obtain ⟨r1, r2, r3, r4, r5, r6⟩ := batch_fold .canceled cancelTask cancelTask_eq ids R.jobs A h.jobs
+  obtain ⟨r1, r2, r3, r4, r5, r6, r7⟩ := batch_fold A.workers A.maxWorker .canceled cancelTask cancelTask_eq ids R.jobs A h.jobs
     (fun id hid => taskIs_exists (hok.1 id hid))
-  exact ⟨_, rfl, ⟨r1, h.queues.trans r2.symm, h.maxJob.trans r3.symm, h.maxWorker.trans r4.symm,
+  refine ⟨_, rfl, ⟨?_, h.queues.trans r2.symm, h.maxJob.trans r3.symm, h.maxWorker.trans r4.symm,
     h.maxQueue.trans r5.symm, h.uid.trans r6.symm⟩⟩
+  simp only [meaningStep, r7, r4]
+  exact r1
 
 theorem step_tasksAborted (h : Inv R A) {ids : List (Nat × Nat)} (hok : recordOk A (.tasksAborted ids) = true) :
     ∃ R', restorerStep R (.tasksAborted ids) = .ok R' ∧ Inv R' (meaningStep A (.tasksAborted ids)) := by
   simp only [recordOk, Bool.and_eq_true, List.all_eq_true] at hok
-  obtain ⟨r1, r2, r3, r4, r5, r6⟩ := batch_fold .aborted abortTask abortTask_eq ids R.jobs A h.jobs
+  obtain ⟨r1, r2, r3, r4, r5, r6, r7⟩ := batch_fold A.workers A.maxWorker .aborted abortTask abortTask_eq ids R.jobs A h.jobs
     (fun id hid => taskIs_exists (hok.1 id hid))
-  exact ⟨_, rfl, ⟨r1, h.queues.trans r2.symm, h.maxJob.trans r3.symm, h.maxWorker.trans r4.symm,
+  refine ⟨_, rfl, ⟨?_, h.queues.trans r2.symm, h.maxJob.trans r3.symm, h.maxWorker.trans r4.symm,
     h.maxQueue.trans r5.symm, h.uid.trans r6.symm⟩⟩
-
+  simp only [meaningStep, r7, r4]
+  exact r1
 
 /-! ### submits and job records -/
 
 theorem specTasks_fresh {d : TaskDesc} {a : ATask} (h : a ∈ d.specTasks) :
-    a.st = .waiting ∧ a.inst = none ∧ a.id ∈ d.ids := by
+    a.st = .waiting ∧ a.inst = none ∧ a.id ∈ d.ids ∧ a.crashes = 0 ∧ a.run = none := by
   cases d with
   | array ids e =>
     simp only [TaskDesc.specTasks, List.mem_map] at h
     obtain ⟨i, hi, rfl⟩ := h
-    exact ⟨rfl, rfl, by simpa [TaskDesc.ids] using hi⟩
+    exact ⟨rfl, rfl, by simpa [TaskDesc.ids] using hi, rfl, rfl⟩
   | graph ts =>
     simp only [TaskDesc.specTasks, List.mem_map] at h
     obtain ⟨t, ht, rfl⟩ := h
-    exact ⟨rfl, rfl, by simp only [TaskDesc.ids, List.mem_map]; exact ⟨t, ht, rfl⟩⟩
+    exact ⟨rfl, rfl, by simp only [TaskDesc.ids, List.mem_map]; exact ⟨t, ht, rfl⟩, rfl, rfl⟩
 
 theorem submitOk_fresh {have_ : List Nat} {d : TaskDesc} (h : submitOk have_ d = true) :
     ∀ i ∈ d.ids, i ∉ have_ := by
@@ -258,7 +326,7 @@ theorem JobRel.attach {rj : RJob} {aj : AJob} (h : JobRel rj aj) (d : TaskDesc)
     | none => rfl
     | some ti =>
       have := h.known a.id (by simp [hget])
-      exact absurd this (hfresh a.id (specTasks_fresh ha).2.2)
+      exact absurd this (hfresh a.id (specTasks_fresh ha).2.2.1)
   refine ⟨h.isOpen, h.maxFails, ?_, ?_, ?_, ?_, h.shape, ?_, ?_⟩
   · simp only [List.map_append, List.flatMap_append, h.tasks]; simp
   · simp [h.nSubmits]
@@ -277,6 +345,41 @@ theorem JobRel.attach {rj : RJob} {aj : AJob} (h : JobRel rj aj) (d : TaskDesc)
   · simp only [submitsOk_append, List.nil_append, Bool.and_eq_true]
     exact ⟨h.valid, by rw [← h.ids]; exact hok⟩
 
+theorem attach_none {rj : RJob} {aj : AJob} (h : JobRel rj aj) (d : TaskDesc)
+    (hok : submitOk (aj.tasks.map (·.id)) d = true) : ∀ a ∈ d.specTasks, alGet rj.tasks a.id = none := by
+  have hfresh := submitOk_fresh hok
+  intro a ha
+  cases hget : alGet rj.tasks a.id with
+  | none => rfl
+  | some ti =>
+    have := h.known a.id (by simp [hget])
+    exact absurd this (hfresh a.id (specTasks_fresh ha).2.2.1)
+
+theorem CrashRel.new (conn : List Nat) (mw : Nat) (mf : Option Nat) (d : TaskDesc) (isOpen : Bool) (n : Nat) :
+    CrashRel conn mw ⟨mf, [d], [], isOpen⟩ ⟨isOpen, mf, d.specTasks, n⟩ :=
+  ⟨fun a ha => by simp [alGet, (specTasks_fresh ha).2.2.2.1],
+   fun a ha ws hr => by simp [(specTasks_fresh ha).2.2.2.2] at hr,
+   fun a ha _ ti sd root h1 => by simp [alGet] at h1,
+   fun t ti sd root h1 => by simp [alGet] at h1⟩
+
+theorem CrashRel.attach {conn : List Nat} {mw : Nat} {rj : RJob} {aj : AJob} (h : CrashRel conn mw rj aj) (d : TaskDesc)
+    (hnone : ∀ a ∈ d.specTasks, alGet rj.tasks a.id = none) :
+    CrashRel conn mw { rj with submits := rj.submits ++ [d] }
+      { aj with tasks := aj.tasks ++ d.specTasks, nSubmits := aj.nSubmits + 1 } := by
+  refine ⟨?_, ?_, ?_, h.run3⟩
+  · intro a ha
+    rcases List.mem_append.1 ha with ha | ha
+    · exact h.crash a ha
+    · simp [hnone a ha, (specTasks_fresh ha).2.2.2.1]
+  · intro a ha ws hr
+    rcases List.mem_append.1 ha with ha | ha
+    · exact h.run1 a ha ws hr
+    · simp [(specTasks_fresh ha).2.2.2.2] at hr
+  · intro a ha hr ti sd root h1
+    rcases List.mem_append.1 ha with ha | ha
+    · exact h.run2 a ha hr ti sd root h1
+    · simp [hnone a ha] at h1
+
 theorem step_submit (h : Inv R A) {j : Nat} {closed : Bool} {mf : Option Nat} {d : TaskDesc}
     (hok : recordOk A (.submit j closed mf d) = true) :
     ∃ R', restorerStep R (.submit j closed mf d) = .ok R' ∧ Inv R' (meaningStep A (.submit j closed mf d)) := by
@@ -285,28 +388,33 @@ theorem step_submit (h : Inv R A) {j : Nat} {closed : Bool} {mf : Option Nat} {d
     simp only [recordOk, if_true, Bool.and_eq_true] at hok
     refine ⟨_, by simp only [restorerStep, if_true]; rfl, ?_⟩
     simp only [meaningStep, if_true, Restorer.addJob]
-    exact ⟨h.jobs.set j (JobRel.new mf d hok.2), h.queues, by simp [h.maxJob], h.maxWorker, h.maxQueue, h.uid⟩
+    exact ⟨h.jobs.set j ⟨JobRel.new mf d hok.2, CrashRel.new _ _ mf d false 1⟩, h.queues, by simp [h.maxJob],
+      h.maxWorker, h.maxQueue, h.uid⟩
   | false =>
     simp only [recordOk, Bool.false_eq_true, if_false] at hok
     cases haj : alGet A.jobs j with
     | none => simp [haj] at hok
     | some aj =>
       simp only [haj, Bool.and_eq_true] at hok
-      obtain ⟨rj, hrj, hrel⟩ := h.getJob haj
+      obtain ⟨rj, hrj, hrel, hcr⟩ := h.getJob haj
       refine ⟨_, by simp only [restorerStep, Bool.false_eq_true, if_false, hrj]; rfl, ?_⟩
       simp only [meaningStep, Bool.false_eq_true, if_false, haj]
-      exact h.setJob j (hrel.attach d hok.2)
+      exact h.setJob j (hrel.attach d hok.2) (hcr.attach d (attach_none hrel d hok.2))
 
 theorem step_jobOpen (h : Inv R A) {j : Nat} {mf : Option Nat} :
     ∃ R', restorerStep R (.jobOpen j mf) = .ok R' ∧ Inv R' (meaningStep A (.jobOpen j mf)) := by
   refine ⟨_, rfl, ?_⟩
   simp only [meaningStep, Restorer.addJob]
-  refine ⟨h.jobs.set j ⟨rfl, rfl, by simp, rfl, ?_, ?_, ?_, ?_, rfl⟩, h.queues, by simp [h.maxJob], h.maxWorker,
-    h.maxQueue, h.uid⟩
+  refine ⟨h.jobs.set j ⟨⟨rfl, rfl, by simp, rfl, ?_, ?_, ?_, ?_, rfl⟩, ⟨?_, ?_, ?_, ?_⟩⟩, h.queues, by simp [h.maxJob],
+    h.maxWorker, h.maxQueue, h.uid⟩
   · intro a ha; simp at ha
   · intro a ha; simp at ha
   · intro t ti hti; simp [alGet] at hti
   · intro t ht; simp [alGet] at ht
+  · intro a ha; simp at ha
+  · intro a ha; simp at ha
+  · intro a ha; simp at ha
+  · intro t ti sd root h1; simp [alGet] at h1
 
 theorem step_jobClose (h : Inv R A) {j : Nat} (hok : recordOk A (.jobClose j) = true) :
     ∃ R', restorerStep R (.jobClose j) = .ok R' ∧ Inv R' (meaningStep A (.jobClose j)) := by
@@ -314,11 +422,11 @@ theorem step_jobClose (h : Inv R A) {j : Nat} (hok : recordOk A (.jobClose j) = 
   cases haj : alGet A.jobs j with
   | none => simp [haj] at hok
   | some aj =>
-    obtain ⟨rj, hrj, hrel⟩ := h.getJob haj
+    obtain ⟨rj, hrj, hrel, hcr⟩ := h.getJob haj
     refine ⟨_, by simp only [restorerStep, hrj]; rfl, ?_⟩
     simp only [meaningStep, haj]
     exact h.setJob j ⟨rfl, hrel.maxFails, hrel.tasks, hrel.nSubmits, hrel.outcome, hrel.inst, hrel.shape, hrel.known,
-      hrel.valid⟩
+      hrel.valid⟩ ⟨hcr.crash, hcr.run1, hcr.run2, hcr.run3⟩
 
 theorem step_jobCancel (h : Inv R A) {j : Nat} (hok : recordOk A (.jobCancel j) = true) :
     ∃ R', restorerStep R (.jobCancel j) = .ok R' ∧ Inv R' (meaningStep A (.jobCancel j)) := by
@@ -329,29 +437,50 @@ theorem step_jobCancel (h : Inv R A) {j : Nat} (hok : recordOk A (.jobCancel j) 
     obtain ⟨rj, hrj, _⟩ := h.getJob haj
     exact ⟨R, by simp only [restorerStep, hrj], h⟩
 
-theorem step_workerLost (h : Inv R A) {w : Nat} {reason : LostReason} :
+theorem increaseCrash_get (rj : RJob) (w : Nat) (t : Nat) :
+    alGet (rj.increaseCrash w).tasks t = (alGet rj.tasks t).map (bump w true) := by
+  simp only [RJob.increaseCrash, alGet_map]
+  cases alGet rj.tasks t with
+  | none => rfl
+  | some ti => rfl
+
+theorem step_workerLost (h : Inv R A) {w : Nat} {reason : LostReason} (hok : recordOk A (.workerLost w reason) = true) :
     ∃ R', restorerStep R (.workerLost w reason) = .ok R' ∧ Inv R' (meaningStep A (.workerLost w reason)) := by
+  have hw : w ∈ A.workers := by simpa [recordOk] using hok
   simp only [restorerStep, meaningStep]
   cases hf : reason.isFailure with
   | true =>
     refine ⟨_, by simp only [if_true]; rfl, ?_⟩
-    exact ⟨h.jobs.map _ _ (fun rj aj hr => (hr.workerLost w true).1), h.queues, h.maxJob, h.maxWorker, h.maxQueue, h.uid⟩
+    exact ⟨h.jobs.map (Q := JR (A.workers.filter (· != w)) A.maxWorker) _ _ (fun rj aj hr =>
+      ⟨(hr.1.workerLost w true).1, hr.2.workerLost w true hw (increaseCrash_get rj w)⟩),
+      h.queues, h.maxJob, h.maxWorker, h.maxQueue, h.uid⟩
   | false =>
     refine ⟨_, by simp only [Bool.false_eq_true, if_false]; rfl, ?_⟩
-    have := h.jobs.map id _ (fun rj aj hr => (hr.workerLost w false).2)
+    have := h.jobs.map (Q := JR (A.workers.filter (· != w)) A.maxWorker) id
+      (fun aj : AJob => { aj with tasks := aj.tasks.map (ATask.lose w false) })
+      (fun rj aj hr => ⟨(hr.1.workerLost w false).2, hr.2.workerLost w false hw (fun t => by
+        show alGet rj.tasks t = _
+        cases hg : alGet rj.tasks t <;> rfl)⟩)
     have hid : alMap id R.jobs = R.jobs := by simp [alMap]
     rw [hid] at this
     exact ⟨this, h.queues, h.maxJob, h.maxWorker, h.maxQueue, h.uid⟩
 
 /-- every record of a producible journal keeps the invariant (and restore does not stop on it) -/
-theorem step_inv (h : Inv R A) (x : Record) (hok : recordOk A x = true) (hf : failOk A x = true) :
+theorem step_inv (h : Inv R A) (x : Record) (hok : recordOk A x = true) :
     ∃ R', restorerStep R x = .ok R' ∧ Inv R' (meaningStep A x) := by
   cases x with
-  | serverStart uid => exact ⟨_, rfl, ⟨h.jobs, h.queues, h.maxJob, h.maxWorker, h.maxQueue, rfl⟩⟩
+  | serverStart uid =>
+    refine ⟨_, rfl, ?_⟩
+    simp only [meaningStep]
+    exact ⟨h.jobs.imp (fun _ _ hr => ⟨hr.1, hr.2.mono (conn' := []) (fun x hx => by simp at hx) (Nat.le_refl _)⟩),
+      h.queues, h.maxJob, h.maxWorker, h.maxQueue, rfl⟩
   | serverStop => exact ⟨_, rfl, h⟩
   | workerConnected w alloc =>
-    have hinv : ∀ qr, Inv { R with maxWorker := max R.maxWorker w, queueRes := qr } { A with maxWorker := max A.maxWorker w } :=
-      fun qr => ⟨h.jobs, h.queues, h.maxJob, by simp [h.maxWorker], h.maxQueue, h.uid⟩
+    have hw : A.maxWorker < w := by simpa [recordOk] using hok
+    have hinv : ∀ qr, Inv { R with maxWorker := max R.maxWorker w, queueRes := qr }
+        { A with maxWorker := max A.maxWorker w, workers := w :: A.workers } :=
+      fun qr => ⟨h.jobs.imp (fun _ _ hr => ⟨hr.1, hr.2.connect hw⟩), h.queues, h.maxJob, by simp [h.maxWorker],
+        h.maxQueue, h.uid⟩
     simp only [restorerStep, meaningStep]
     cases alloc with
     | none => exact ⟨_, rfl, hinv _⟩
@@ -360,7 +489,7 @@ theorem step_inv (h : Inv R A) (x : Record) (hok : recordOk A x = true) (hf : fa
       cases alGet R.allocQueue a with
       | none => exact ⟨_, rfl, hinv _⟩
       | some q => exact ⟨_, rfl, hinv _⟩
-  | workerLost w reason => exact step_workerLost h
+  | workerLost w reason => exact step_workerLost h hok
   | workerOverview w => exact ⟨_, rfl, h⟩
   | submit j c mf d => exact step_submit h hok
   | jobOpen j mf => exact step_jobOpen h
@@ -370,7 +499,7 @@ theorem step_inv (h : Inv R A) (x : Record) (hok : recordOk A x = true) (hf : fa
     exact ⟨_, rfl, ⟨h.jobs.del j, h.queues, h.maxJob, h.maxWorker, h.maxQueue, h.uid⟩⟩
   | taskStarted j t i ws => exact step_taskStarted h hok
   | taskFinished j t => exact step_taskFinished h hok
-  | taskFailed j t => exact step_taskFailed h hok hf
+  | taskFailed j t => exact step_taskFailed h hok
   | tasksCanceled ids => exact step_tasksCanceled h hok
   | tasksAborted ids => exact step_tasksAborted h hok
   | queueCreated q =>
@@ -384,19 +513,17 @@ theorem step_inv (h : Inv R A) (x : Record) (hok : recordOk A x = true) (hf : fa
   | allocStarted q a => exact ⟨_, rfl, h⟩
   | allocFinished q a => exact ⟨_, rfl, h⟩
 
-/-- along a producible journal without a failure-before-start, `load_event_file` does not stop and ends in a state
-related to `meaning` -/
+/-- along a producible journal `load_event_file` does not stop and ends in a state related to `meaning` -/
 theorem fold_inv : ∀ (J : List Record) (R : Restorer) (A : AState), Inv R A → producibleFrom A J = true →
-    noFailBeforeStartFrom A J = true →
     ∃ R', restorerFoldFrom R J = .ok R' ∧ Inv R' (J.foldl meaningStep A) := by
   intro J
   induction J with
-  | nil => intro R A h _ _; exact ⟨R, rfl, h⟩
+  | nil => intro R A h _; exact ⟨R, rfl, h⟩
   | cons x xs ih =>
-    intro R A h hp hf
-    simp only [producibleFrom, noFailBeforeStartFrom, Bool.and_eq_true] at hp hf
-    obtain ⟨R1, h1, hinv1⟩ := step_inv h x hp.1 hf.1
-    obtain ⟨R2, h2, hinv2⟩ := ih R1 _ hinv1 hp.2 hf.2
+    intro R A h hp
+    simp only [producibleFrom, Bool.and_eq_true] at hp
+    obtain ⟨R1, h1, hinv1⟩ := step_inv h x hp.1
+    obtain ⟨R2, h2, hinv2⟩ := ih R1 _ hinv1 hp.2
     exact ⟨R2, by simp only [restorerFoldFrom, h1, h2], by simpa using hinv2⟩
 
 end HqModel.Journal
